@@ -335,7 +335,9 @@ class BDD(dd._abc.BDD[_Ref]):
             ) -> _Ref:
         """Return node `IF var THEN high ELSE low`."""
         level = self.level_of_var(var)
-        r = self._bdd.find_or_add(level, low.node, high.node)
+        with _bdd._ReorderingSuspended(self._bdd):
+            r = self._bdd.find_or_add(
+                level, low.node, high.node)
         return self._wrap(r)
 
     def count(
